@@ -5,17 +5,21 @@ import (
 	"encoding/binary"
 	"fmt"
 	"image"
+	"runtime"
+	"runtime/debug"
 	"strings"
 	"time"
 
 	webp "github.com/deepteams/webp"
 	"github.com/deepteams/webp/animation"
 	"github.com/deepteams/webp/mux"
+	"github.com/deepteams/webp/verifapi"
 )
 
 func init() {
 	suites["conform"] = suiteConform
 	suites["meta"] = suiteMeta
+	replayers["meta-cap"] = replayMetaCap
 }
 
 // walkRIFF is the harness's own structural walker (independent of /repo's parsers): returns the
@@ -184,6 +188,9 @@ func srcHasAlpha(img *image.NRGBA) bool {
 func randBlob(r *RNG) []byte {
 	switch r.Intn(7) {
 	case 0:
+		if r.Bool() {
+			return []byte{} // empty but not nil: means "no blob" exactly like nil
+		}
 		return nil
 	case 1:
 		return r.Bytes(1)
@@ -238,7 +245,7 @@ func randEncoderOptions(r *RNG) *webp.EncoderOptions {
 
 // suiteConform: C02 — every successful Encode emits a conformant, self-describing file.
 func suiteConform(rep *Report) error {
-	rep.Rule = "Encode over image class x alpha class (incl. sparse: 1..3 non-opaque pixels at raster index 0, 1 or among the last 8) x size x {lossy,lossless} x Quality x Method x presets x Segments x Partitions x Pass x filter settings x SNS x QMin/QMax x TargetSize/TargetPSNR x sharp YUV x dithering x Exact x alpha settings x metadata subsets, plus three deterministic legs: pictures on the numeric thresholds of the code (thresholds.go) and widths 1023..4097 x heights 1..4 with flat/gradient/sparse content; one non-opaque pixel at index 0 / 1 / each of the last 8 positions over sizes with pixel count mod 4 = 0..3, and two-colour pictures whose packed bytes leave runs of unused symbols of lengths around 2/3, 10/11, 138/139/140 and 130..145 in the code-length vector; each output: independent structural walk (sizes, padding, chunk order, VP8X flags <=> chunks, canvas = image size, alpha flag vs source), Lean RIFF walker (when the driver has riffwf), accepted by webp.Decode with the source's size, and decoded by the independent Lean decoders (VP8L always; VP8 when the driver has vp8) to the same pixels/samples as the Go decoder; non-trivial = image not flat"
+	rep.Rule = "Encode over image class x alpha class (incl. sparse: 1..3 non-opaque pixels at raster index 0, 1 or among the last 8) x size x {lossy,lossless} x Quality x Method x presets x Segments x Partitions x Pass x filter settings x SNS x QMin/QMax x TargetSize/TargetPSNR x sharp YUV x dithering x Exact x alpha settings x metadata subsets, plus deterministic legs: pictures with exactly n colours for n around 2 / 4 / 16 / 192 / 256, metadata blobs whose length sits around 8 / 1024 / 4096 / 65536 bytes, lossy noise pictures bracketing 32768 coefficient tokens with 2 / 4 / 8 token partitions; pictures on the numeric thresholds of the code (thresholds.go) and widths 1023..4097 x heights 1..4 with flat/gradient/sparse content; one non-opaque pixel at index 0 / 1 / each of the last 8 positions over sizes with pixel count mod 4 = 0..3, and two-colour pictures whose packed bytes leave runs of unused symbols of lengths around 2/3, 10/11, 138/139/140 and 130..145 in the code-length vector; each output: independent structural walk (sizes, padding, chunk order, VP8X flags <=> chunks, canvas = image size, alpha flag vs source), Lean RIFF walker (when the driver has riffwf), accepted by webp.Decode with the source's size, and decoded by the independent Lean decoders (VP8L always; VP8 when the driver has vp8) to the same pixels/samples as the Go decoder; non-trivial = image not flat"
 	n := 330
 	if rep.Tier == "thorough" {
 		n = 8000
@@ -281,17 +288,68 @@ func suiteConform(rep *Report) error {
 		}
 	}
 	nThr := len(thr)
-	for i := 0; i < n+nSparse+nZero+nThr; i++ {
+	// count legs (threshold units without a picture dimension, thresholds.go): pictures with EXACTLY n colours
+	// around 2 / 4 / 16 / 192 / 256; metadata blobs whose LENGTH sits around 8 / 1024 / 4096 / 65536 bytes; lossy
+	// noise pictures bracketing 32768 coefficient tokens with 2 / 4 / 8 token partitions
+	nCol, nBlob, nTok := 5, 4, 2
+	if rep.Tier == "thorough" {
+		nCol, nBlob, nTok = 1<<20, 1<<20, 1<<20
+	}
+	colCases := DrawCountCases(rep.Seed, 0x0201, nCol, "colors", 2, 300)
+	blobCases := BlobLens(1 << 17)
+	if nBlob < len(blobCases) {
+		blobCases = DrawCountCases(rep.Seed, 0x0202, nBlob, "bytes", 8, 1<<17)
+	}
+	tokCases := TokenCases()
+	if nTok < len(tokCases) {
+		k := int(rep.Seed % uint64(len(tokCases)))
+		tokCases = []TokenCase{tokCases[k], tokCases[(k+2)%len(tokCases)]}
+	}
+	nCount := len(colCases) + len(blobCases) + len(tokCases)
+	for i := 0; i < n+nSparse+nZero+nThr+nCount; i++ {
 		r := NewRNG(rep.Seed, uint64(i))
 		sz := sizes[r.Intn(len(sizes))]
-		if i%83 == 0 {
+		if i%83 == 0 && i < n+nSparse+nZero+nThr {
 			sz = [2]int{320, 320}
 		}
+		blobLen, tokParts := -1, 0
 		cls, acls := r.Intn(NumImgClasses), r.Intn(NumAlphaClasses)
 		var img *image.NRGBA
 		idesc := ""
 		leg := "random"
 		switch {
+		case i >= n+nSparse+nZero+nThr:
+			k := i - (n + nSparse + nZero + nThr)
+			switch {
+			case k < len(colCases):
+				cc := colCases[k]
+				sz = [2]int{17 + r.Intn(24), 17 + r.Intn(24)}
+				if r.Chance(1, 4) {
+					sz = [2]int{300 + r.Intn(30), 1 + r.Intn(3)}
+				}
+				img = GenColorCountImage(r, sz[0], sz[1], cc.N)
+				cls, acls = ClsPal256, AlphaNone
+				idesc = fmt.Sprintf("%dx%d/exactly-%d-colours %s", sz[0], sz[1], cc.N, cc.String())
+				leg = "colors"
+				CountCount(rep, cc)
+			case k < len(colCases)+len(blobCases):
+				bc := blobCases[k-len(colCases)]
+				sz = [2]int{1 + r.Intn(9), 1 + r.Intn(9)}
+				img = GenImage(r, sz[0], sz[1], cls, acls)
+				idesc = imgDesc(sz[0], sz[1], cls, acls) + " blob-length " + bc.String()
+				leg = "blob-length"
+				blobLen = bc.N
+				CountCount(rep, bc)
+			default:
+				tk := tokCases[k-len(colCases)-len(blobCases)]
+				sz = [2]int{tk.W, tk.H}
+				cls, acls = ClsNoise, AlphaNone
+				img = GenImage(r, tk.W, tk.H, cls, acls)
+				idesc = fmt.Sprintf("%s ~%d tokens (%s)", imgDesc(tk.W, tk.H, cls, acls), tk.Est, tk.T.Tag()[len("threshold:"):])
+				leg = "tokens"
+				tokParts = 1 + r.Intn(3)
+				rep.Count(tk.T.Tag())
+			}
 		case i >= n+nSparse+nZero:
 			tc := thr[i-(n+nSparse+nZero)]
 			sz = [2]int{tc.W, tc.H}
@@ -333,6 +391,29 @@ func suiteConform(rep *Report) error {
 			o.ICC, o.EXIF, o.XMP = nil, nil, nil
 		}
 		switch leg {
+		case "colors":
+			// the colour-count thresholds belong to the lossless encoder (palette, index packing)
+			o.Lossless = i%4 != 3
+			o.TargetSize, o.TargetPSNR = 0, 0
+		case "blob-length":
+			// one kind carries a blob of exactly blobLen bytes, the others stay random / absent
+			b := r.Bytes(blobLen)
+			switch r.Intn(3) {
+			case 0:
+				o.ICC = b
+			case 1:
+				o.EXIF = b
+			default:
+				o.XMP = b
+			}
+			o.TargetSize, o.TargetPSNR, o.Pass = 0, 0, 1
+		case "tokens":
+			o.Lossless = false
+			o.Quality = float32(tokCases[0].Quality)
+			o.Partitions = tokParts
+			o.Segments = 1 + r.Intn(4)
+			o.TargetSize, o.TargetPSNR, o.Pass, o.QMin, o.QMax = 0, 0, 1, 0, 100
+			o.SNSStrength, o.Preprocessing = 0, 0
 		case "threshold":
 			o.Lossless = i%3 == 0
 			o.TargetSize, o.TargetPSNR, o.Pass = 0, 0, 1
@@ -450,13 +531,16 @@ func suiteConform(rep *Report) error {
 }
 
 // metaAnimCase: one animation-encoder run with a random metadata setter sequence (see suiteMeta).
-func metaAnimCase(rep *Report, r *RNG, i int, img *image.NRGBA, w, h, cls, acls int) {
+func metaAnimCase(rep *Report, r *RNG, i int, img *image.NRGBA, w, h, cls, acls int, forceFrames int) {
 	var buf bytes.Buffer
 	lossless := r.Chance(2, 3)
 	e := animation.NewEncoder(&buf, w, h, &animation.EncodeOptions{Lossless: lossless, Quality: []int{50, 75, 90}[r.Intn(3)]})
 	nframes := 1 + r.Intn(3)
 	if r.Chance(1, 3) {
 		nframes = 1
+	}
+	if forceFrames > 0 {
+		nframes = forceFrames
 	}
 	names := []string{"ICC", "EXIF", "XMP"}
 	var final [3][]byte
@@ -529,7 +613,9 @@ func metaAnimCase(rep *Report, r *RNG, i int, img *image.NRGBA, w, h, cls, acls 
 		}
 	}
 	rep.Eval(held > 0, append([]byte(desc), file...))
-	rep.Count(fmt.Sprintf("animation:frames=%d", nframes))
+	if forceFrames == 0 {
+		rep.Count(fmt.Sprintf("animation:frames=%d", nframes))
+	}
 	rep.Count(fmt.Sprintf("animation:kinds-held=%d", held))
 	if len(file) >= 16 && string(file[12:16]) != "VP8X" {
 		rep.Count("animation:written-as-simple-still")
@@ -600,7 +686,7 @@ func imageChunks(file []byte) (img, alph []byte) {
 
 // suiteMeta: C15 — metadata is stored byte-exact and never affects the picture.
 func suiteMeta(rep *Report) error {
-	rep.Rule = "same image - as *image.NRGBA or, 3 of 5, in another storage form: RGBA, Gray, Paletted, NRGBA64, RGBA64, image.Image-only wrapper, sub-image, half of them at a non-zero origin; plus a few pictures on the numeric thresholds of the code with cheap content - encoded (full option grid: presets, lossy/lossless, Quality, Method, Exact - forced on for a third of the transparent pictures, whose alpha-0 pixels carry colour -, segments, partitions, passes, alpha settings, sharp YUV, target size/PSNR) without metadata and with every subset of {ICC,EXIF,XMP} over blob lengths {0,1,2..4,odd,even,chunk-like content, 64 KiB (thorough: 100 MB -1/+1)}: image (and ALPH) chunk bytes identical, decoded pixels identical, blobs read back byte-exact through the demuxer, VP8X flags announce exactly the non-empty blobs; animation encoder with 1..3 frames and a random sequence of SetICCProfile/SetEXIF/SetXMP calls (nil, empty and non-empty arguments, repeated, before/between/after the frames): per kind the LAST value set is read back byte-exact through animation.DecodeBytes and Demuxer.GetChunk with exact VP8X flags, whether Close() wrote an animation or a plain still; non-trivial = at least one non-empty blob"
+	rep.Rule = "same image - as *image.NRGBA or, 3 of 5, in another storage form: RGBA, Gray, Paletted, NRGBA64, RGBA64, image.Image-only wrapper, sub-image, half of them at a non-zero origin; plus a few pictures on the numeric thresholds of the code with cheap content - encoded (full option grid: presets, lossy/lossless, Quality, Method, Exact - forced on for a third of the transparent pictures, whose alpha-0 pixels carry colour -, segments, partitions, passes, alpha settings, sharp YUV, target size/PSNR) without metadata and with every subset of {ICC,EXIF,XMP} over blob lengths {nil, empty non-nil, 1,2..4,odd,even up to 142 bytes,chunk-like content; thorough: also 65536 / 65537}: image (and ALPH) chunk bytes identical, decoded pixels identical, blobs read back byte-exact through the demuxer, VP8X flags announce exactly the non-empty blobs; animation encoder with 1..3 frames and a random sequence of SetICCProfile/SetEXIF/SetXMP calls (nil, empty and non-empty arguments, repeated, before/between/after the frames): per kind the LAST value set is read back byte-exact through animation.DecodeBytes and Demuxer.GetChunk with exact VP8X flags, whether Close() wrote an animation or a plain still; the same for animations of 1/2/3 and 29/30/31 small frames (frame-count thresholds, 2 per run); cap probe on ONE shared 100 MiB buffer: a blob of exactly MetadataCap = 100 MiB bytes per kind {ICC,EXIF,XMP} through one writer path (webp.Encode of a 1x1 picture lossy / lossless, Muxer.Set*, Muxer.AddChunk; rotated by the seed; thorough: every kind x {cap-1, cap, cap+1} x path) must be accepted and the file must pass container.NewParser, GetFeatures, DecodeConfig, Decode, NewDemuxer + GetChunk (all n bytes back) and animation.DecodeBytes, and cap+1 must be refused by every writer path before anything is written; non-trivial = at least one non-empty blob"
 	n := 120
 	if rep.Tier == "thorough" {
 		n = 3000
@@ -665,6 +751,13 @@ func suiteMeta(rep *Report) error {
 			}
 			desc := fmt.Sprintf("%s type=%s lossless=%v q=%v m=%d exact=%v seg=%d part=%d pass=%d ts=%d psnr=%v ac=%d af=%d aq=%d syuv=%v pre=%d meta=%d/%d/%d", imgDesc(w, h, cls, acls), tname, o.Lossless,
 				o.Quality, o.Method, o.Exact, o.Segments, o.Partitions, o.Pass, o.TargetSize, o.TargetPSNR, o.AlphaCompression, o.AlphaFiltering, o.AlphaQuality, o.UseSharpYUV, o.Preprocessing, len(o2.ICC), len(o2.EXIF), len(o2.XMP))
+			for _, b := range [][]byte{o2.ICC, o2.EXIF, o2.XMP} {
+				if b != nil && len(b) == 0 {
+					desc += " (a 0 is an empty non-nil blob)"
+					rep.Count("blob:empty-non-nil")
+					break
+				}
+			}
 			file, err := encodeBytes(img, &o2)
 			add := func(sig, detail string) {
 				rep.Add(Finding{Kind: "property", Property: "C15", Signature: sig, Detail: desc + ": " + detail,
@@ -719,12 +812,269 @@ func suiteMeta(rep *Report) error {
 		// was never set) is absent; whatever container form Close() picks (one frame may become a plain
 		// still) must not lose a blob the muxer still holds.
 		if i%2 == 0 && i < n {
-			metaAnimCase(rep, r, i, nimg, w, h, cls, acls)
+			metaAnimCase(rep, r, i, nimg, w, h, cls, acls, 0)
 		}
 		rep.Count(fmt.Sprintf("lossless=%v,exact=%v,transparent=%v", o.Lossless, o.Exact, acls != AlphaNone))
 		if i < 2 {
 			rep.Sample(map[string]any{"image": imgDesc(w, h, cls, acls), "base_bytes": len(base)})
 		}
 	}
+	// animations whose LENGTH sits on the frame-count thresholds (2: serial vs parallel frame decoding; 30: the
+	// key-frame cache), small frames, the same random setter sequences
+	nfc := 2
+	if rep.Tier == "thorough" {
+		nfc = 1 << 20
+	}
+	for k, fc := range DrawCountCases(rep.Seed, 0x1501, nfc, "frames", 2, 40) {
+		r := NewRNG(rep.Seed, 0x15F0_0000+uint64(k))
+		w, h := 2+r.Intn(7), 2+r.Intn(7)
+		cls, acls := []int{ClsNoise, ClsPal16, ClsPhoto, ClsPal256}[r.Intn(4)], r.Intn(NumAlphaClasses)
+		metaAnimCase(rep, r, 1_000_000+k, GenImage(r, w, h, cls, acls), w, h, cls, acls, fc.N)
+		CountCount(rep, fc)
+	}
+	metaCapProbe(rep, "C15")
 	return nil
+}
+
+// ---------------------------------------------------------------------------------------------------
+// metadata cap probe: blobs of MetadataCap-1 / MetadataCap / MetadataCap+1 bytes (100 MiB)
+
+// metaCapSink collects a writer's output in one pre-sized buffer that all probes share.
+type metaCapSink struct{ b []byte }
+
+func (s *metaCapSink) Write(p []byte) (int, error) { s.b = append(s.b, p...); return len(p), nil }
+
+var metaCapKinds = []string{"ICC", "EXIF", "XMP"}
+var metaCapPaths = []string{"encode-lossy", "encode-lossless", "mux-set", "mux-addchunk"}
+
+// metaCapWrite hands a blob of n bytes (a slice of the shared read-only CapBuffer) of the given kind to one writer
+// path: webp.Encode of a 1x1 picture (lossy / lossless) or a Muxer holding one 1x1 VP8L frame (Set* / AddChunk).
+// Returns the setter's / writer's error (nil = a file was written into sink).
+func metaCapWrite(sink *metaCapSink, kind, path, n int) error {
+	blob := CapBuffer()[:n:n]
+	sink.b = sink.b[:0]
+	switch path {
+	case 0, 1:
+		img := image.NewNRGBA(image.Rect(0, 0, 1, 1))
+		img.Pix[0], img.Pix[1], img.Pix[2], img.Pix[3] = 10, 200, 30, 255
+		o := webp.DefaultOptions()
+		o.Lossless = path == 1
+		o.Method = 1
+		switch kind {
+		case 0:
+			o.ICC = blob
+		case 1:
+			o.EXIF = blob
+		default:
+			o.XMP = blob
+		}
+		return webp.Encode(sink, img, o)
+	default:
+		m := mux.NewMuxer()
+		o := webp.DefaultOptions()
+		o.Lossless = true
+		px := image.NewNRGBA(image.Rect(0, 0, 1, 1))
+		px.Pix[1], px.Pix[3] = 77, 255
+		if err := m.AddFrame(firstChunkPayload(mustEncode(px, o)), nil); err != nil { // a real 1x1 VP8L bitstream
+			return err
+		}
+		if path == 2 {
+			switch kind {
+			case 0:
+				m.SetICCProfile(blob)
+			case 1:
+				m.SetEXIF(blob)
+			default:
+				m.SetXMP(blob)
+			}
+		} else if err := m.AddChunk([]mux.ChunkID{mux.FourCCICCP, mux.FourCCEXIF, mux.FourCCXMP}[kind], blob); err != nil {
+			return err
+		}
+		return m.Assemble(sink)
+	}
+}
+
+// metaCapReaders runs every reader of the package on an accepted file that carries a blob of n bytes of the given
+// kind and returns (reader, what went wrong) pairs.
+func metaCapReaders(file []byte, kind, n int) [][2]string {
+	var bad [][2]string
+	want := CapBuffer()[:n:n]
+	fail := func(reader, format string, a ...any) { bad = append(bad, [2]string{reader, fmt.Sprintf(format, a...)}) }
+	// (collect after every reader so that the next 100 MiB copy re-uses the span of the previous one; the memory
+	// goes back to the system once, at the end of the probe)
+	free := func() { runtime.GC() }
+	if st, pm := guard(func() string {
+		if _, err := verifapi.NewContainerParser(file); err != nil {
+			fail("container.NewParser", "%v", err)
+		}
+		return "ok"
+	}); st == "panic" {
+		fail("container.NewParser", "panic: %s", pm)
+	}
+	free()
+	if st, pm := guard(func() string {
+		ft, err := webp.GetFeatures(bytes.NewReader(file))
+		if err != nil {
+			fail("GetFeatures", "%v", err)
+		} else if ft.Width != 1 || ft.Height != 1 || ft.Format != "extended" {
+			fail("GetFeatures", "reports %+v for a 1x1 extended still", ft)
+		}
+		return "ok"
+	}); st == "panic" {
+		fail("GetFeatures", "panic: %s", pm)
+	}
+	free()
+	{
+		if st, pm := guard(func() string {
+			cf, err := webp.DecodeConfig(bytes.NewReader(file))
+			if err != nil {
+				fail("DecodeConfig", "%v", err)
+			} else if cf.Width != 1 || cf.Height != 1 {
+				fail("DecodeConfig", "reports %dx%d for a 1x1 still", cf.Width, cf.Height)
+			}
+			return "ok"
+		}); st == "panic" {
+			fail("DecodeConfig", "panic: %s", pm)
+		}
+		free()
+		if st, pm := guard(func() string {
+			im, err := webp.Decode(bytes.NewReader(file))
+			if err != nil {
+				fail("Decode", "%v", err)
+			} else if im.Bounds().Dx() != 1 || im.Bounds().Dy() != 1 {
+				fail("Decode", "returns %v for a 1x1 still", im.Bounds())
+			}
+			return "ok"
+		}); st == "panic" {
+			fail("Decode", "panic: %s", pm)
+		}
+		free()
+	}
+	if st, pm := guard(func() string {
+		d, err := mux.NewDemuxer(file)
+		if err != nil {
+			fail("NewDemuxer", "%v", err)
+			return "ok"
+		}
+		got, gerr := d.GetChunk([]mux.ChunkID{mux.FourCCICCP, mux.FourCCEXIF, mux.FourCCXMP}[kind])
+		if gerr != nil || !bytes.Equal(got, want) {
+			fail("GetChunk", "blob of %d bytes read back as %d bytes (err=%v, equal=%v)", n, len(got), gerr, bytes.Equal(got, want))
+		}
+		ft := d.GetFeatures()
+		if flags := [3]bool{ft.HasICC, ft.HasEXIF, ft.HasXMP}; flags != [3]bool{kind == 0, kind == 1, kind == 2} {
+			fail("Demuxer.GetFeatures", "flags icc/exif/xmp %v for one %s blob", flags, metaCapKinds[kind])
+		}
+		return "ok"
+	}); st == "panic" {
+		fail("NewDemuxer", "panic: %s", pm)
+	}
+	free()
+	{
+		if st, pm := guard(func() string {
+			a, err := animation.DecodeBytes(file)
+			if err != nil {
+				fail("animation.DecodeBytes", "%v", err)
+				return "ok"
+			}
+			got := [][]byte{a.ICC, a.EXIF, a.XMP}[kind]
+			if !bytes.Equal(got, want) {
+				fail("animation.DecodeBytes", "blob of %d bytes read back as %d bytes", n, len(got))
+			}
+			return "ok"
+		}); st == "panic" {
+			fail("animation.DecodeBytes", "panic: %s", pm)
+		}
+		free()
+	}
+	return bad
+}
+
+// metaCapOne runs one probe (kind x path x n) and files what it finds under prop. Writers must accept n <= cap
+// and refuse n > cap before writing anything; every accepted file must pass every reader with the n bytes back.
+func metaCapOne(rep *Report, sink *metaCapSink, prop string, kind, path, n int) {
+	kname, pname := metaCapKinds[kind], metaCapPaths[path]
+	desc := fmt.Sprintf("%s blob of %d bytes (cap%+d) through %s", kname, n, n-MetadataCap, pname)
+	in := map[string]any{"op": "meta-cap", "kind": kname, "path": pname, "n": n, "desc": desc}
+	add := func(sig, detail string) {
+		rep.Add(Finding{Kind: "property", Property: prop, Signature: sig, Detail: desc + ": " + detail, Input: in})
+	}
+	var werr error
+	if st, pm := guard(func() string { werr = metaCapWrite(sink, kind, path, n); return "ok" }); st == "panic" {
+		add("meta:cap:"+kname+":writer-panics", pm)
+		return
+	}
+	rep.Count(fmt.Sprintf("cap-probe:%s:%s:cap%+d:accepted=%v", kname, pname, n-MetadataCap, werr == nil))
+	rep.Eval(true, []byte(desc))
+	switch {
+	case werr != nil && n <= MetadataCap:
+		add("meta:cap:"+kname+":writer-refuses", "a blob within the documented cap is refused: "+werr.Error())
+	case werr != nil:
+		if len(sink.b) != 0 {
+			add("meta:cap:"+kname+":error-after-write", fmt.Sprintf("the writer returned %v after writing %d bytes", werr, len(sink.b)))
+		}
+	case n > MetadataCap:
+		add("meta:cap:"+kname+":writer-accepts-oversize", fmt.Sprintf("a blob above the cap is written (%d bytes) although no reader of the package accepts it", len(sink.b)))
+	default:
+		for _, b := range metaCapReaders(sink.b, kind, n) {
+			add("meta:cap:"+kname+":"+b[0], fmt.Sprintf("the writer accepts the blob (file of %d bytes) but %s: %s", len(sink.b), b[0], b[1]))
+		}
+	}
+	sink.b = sink.b[:0]
+}
+
+// metaCapProbe: quick = per kind one accepted probe at n = cap (writer path rotated by the seed) and the cap+1
+// refusal of every writer path (cheap: nothing is written); thorough = kinds x {cap-1, cap, cap+1} x paths. The
+// probes run sequentially on ONE shared source buffer and ONE shared output buffer.
+func metaCapProbe(rep *Report, prop string) {
+	defer debug.SetGCPercent(debug.SetGCPercent(25))
+	t0 := time.Now()
+	sink := &metaCapSink{b: make([]byte, 0, MetadataCap+(1<<16))}
+	for kind := range metaCapKinds {
+		for path := range metaCapPaths {
+			if rep.Tier == "thorough" {
+				for _, n := range []int{MetadataCap - 1, MetadataCap, MetadataCap + 1} {
+					metaCapOne(rep, sink, prop, kind, path, n)
+				}
+				continue
+			}
+			metaCapOne(rep, sink, prop, kind, path, MetadataCap+1)
+			if (kind+int(rep.Seed))%len(metaCapPaths) == path {
+				metaCapOne(rep, sink, prop, kind, path, MetadataCap)
+			}
+		}
+	}
+	sink.b = nil
+	runtime.GC()
+	debug.FreeOSMemory()
+	rep.Extra["cap_probe_ms"] = time.Since(t0).Milliseconds()
+}
+
+// replayMetaCap re-runs one cap probe.
+func replayMetaCap(in map[string]any) int {
+	kind, path := -1, -1
+	for k, s := range metaCapKinds {
+		if s == in["kind"] {
+			kind = k
+		}
+	}
+	for k, s := range metaCapPaths {
+		if s == in["path"] {
+			path = k
+		}
+	}
+	n, _ := in["n"].(float64)
+	if kind < 0 || path < 0 || n <= 0 {
+		fmt.Println("meta-cap: bad input")
+		return 2
+	}
+	rep := NewReport("meta", "replay", 0)
+	metaCapOne(rep, &metaCapSink{b: make([]byte, 0, MetadataCap+(1<<16))}, "C15", kind, path, int(n))
+	for _, f := range rep.Findings {
+		fmt.Printf("%s %s %s: %s\n", f.Kind, f.Property, f.Signature, f.Detail)
+	}
+	if len(rep.Findings) > 0 {
+		return 1
+	}
+	fmt.Println("no finding")
+	return 0
 }
